@@ -108,10 +108,43 @@ func runC13(c *Ctx) {
 		sort.Strings(as)
 		ok := len(as) == 2 && mustRe(pat("call consensus.%ID%({consensus.State}.Difficulty.n)")).MatchString(as[0]) && as[1] == "{consensus.State}.ChildTarget"
 		c.Check(ok, "era-dispatch", "PoWTarget-returns", c.P.Pos(fn.Pos()), ifElse(ok, "PoWTarget = ChildTarget before the final cut, inverse of Difficulty afterwards", "PoWTarget returns "+joinShort(as)+": the target a header must meet is not the recorded child target of its era"))
-		gs := ge.Guards(fn, nil, nil, nil, 0, map[*ssa.Function]int{})
-		r := req("PoWTarget-era", "consensus.(State).PoWTarget", "%CH%", opLT, "%NET%.HardforkV2.FinalCutHeight", "the recorded target is authoritative until the final cut height")
-		r.Weak = true
-		ge.CheckReq(c, "era-dispatch", r, gs)
+		// which value is returned on which side of the final cut height (whatever the spelling of the test)
+		chRe, cutRe := mustRe(pat("%CH%")), mustRe(pat("%NET%.HardforkV2.FinalCutHeight"))
+		fi := ge.info(fn)
+		bad, seen := "", 0
+		for _, r := range returnsOf(fn) {
+			if len(r.Results) != 1 {
+				continue
+			}
+			saved := ge.pv.loadCtx
+			ge.pv.loadCtx = []ssa.Instruction{r}
+			a := ge.pv.Atom(r.Results[0], nil)
+			ge.pv.loadCtx = saved
+			side := ""
+			for _, cd := range ge.domConds(fi, r.Block(), nil) {
+				l, op, rr := cd.L, cd.Op, cd.R
+				if cutRe.MatchString(l) && chRe.MatchString(rr) {
+					l, rr, op = rr, l, flipOp[op]
+				}
+				if chRe.MatchString(l) && cutRe.MatchString(rr) {
+					side = op
+				}
+			}
+			switch {
+			case a == "{consensus.State}.ChildTarget":
+				seen++
+				if side != "<" {
+					bad = "ChildTarget is returned where childHeight " + side + " FinalCutHeight"
+				}
+			default:
+				seen++
+				if side != ">=" {
+					bad = short(a) + " is returned where childHeight " + side + " FinalCutHeight"
+				}
+			}
+		}
+		okEra := bad == "" && seen == 2
+		c.Check(okEra, "era-dispatch", "PoWTarget-era", c.P.Pos(fn.Pos()), ifElse(okEra, "the recorded child target is returned strictly before the final cut height, the inverse of Difficulty from it on", ifElse(bad != "", bad, fmt.Sprintf("%d returns", seen))+" — the recorded target is authoritative until the final cut height"))
 	} else {
 		c.Undecided("era-dispatch", "PoWTarget", "", "(State).PoWTarget does not resolve")
 	}
